@@ -314,8 +314,9 @@ def reset (_ : Dma) : Dma := {}
 
 def enableChannelSet (d : Dma) (v : U16) : Dma := { d with enableChannel := v }
 def getChannelEnabled (d : Dma) : U16 := d.enableChannel
-/-- `Dma::ActivateChannel` stores any `u16`. -/
-def activateChannel (d : Dma) (v : U16) : Dma := { d with activeChannel := v }
+/-- `Dma::ActivateChannel`: CHANNEL is a 3-bit field (the pinned upstream code stored the value
+unmasked and indexed `channels[8]` with it; repaired in /repo). -/
+def activateChannel (d : Dma) (v : U16) : Dma := { d with activeChannel := v &&& 7 }
 def getActiveChannel (d : Dma) : U16 := d.activeChannel
 
 /-- `channels[active_channel]` read access, guarded. -/
